@@ -257,7 +257,7 @@ def tz_of(g):
     return g.get('tz')
 
 
-FRAME_DROPS_ZONE = True     # follow the code: `orders[col].values` of a datetime64[ns, tz] column is zone-less UTC wall time
+FRAME_DROPS_ZONE = False    # follow the code: `orders[col].values` of a datetime64[ns, tz] column is zone-less UTC wall time
 
 
 def as_frame(cols):
